@@ -18,6 +18,9 @@
 (*             (rulesObjectUsed[prog])                                     *)
 (*   engines : engines whose translation tables were built in the process  *)
 (*   failed  : some earlier step failed (its exception was caught)         *)
+(*   imported: <<module file, program>> pairs: the import machinery parsed *)
+(*             that file for that main program (a cache of parsed imports  *)
+(*             would keep it, with the prefix THAT program needed)         *)
 (*                                                                         *)
 (* Modes of Compile(prog, mode):                                           *)
 (*   "parse"  parse the text again, compile the fresh rules object         *)
@@ -48,7 +51,7 @@ Stages == {"ok", "parse", "compile", "type", "exec"}
 
 NoProc == [alive |-> FALSE, seed |-> 0, tooMuch |-> FALSE, warm |-> FALSE,
            plain |-> {}, fun |-> {}, used |-> {}, engines |-> {},
-           failed |-> FALSE]
+           failed |-> FALSE, imported |-> {}]
 
 FreshProc(s) == [NoProc EXCEPT !.alive = TRUE, !.seed = s]
 
@@ -70,6 +73,11 @@ UnderFun(ps, p, m, inc) ==
 (* this process.                                                            *)
 OtherEngineBefore(ps, eng) == \E e \in ps.engines : e # eng
 
+(* Implementation-shaped: a module file this program imports was parsed     *)
+(* earlier in this process for ANOTHER main program.                        *)
+ImportedForOther(ps, p, mods) ==
+  \E x \in ps.imported : x[1] \in mods /\ x[2] # p
+
 (* The rules object this action compiles from was compiled from before.    *)
 UsedBefore(ps, p, m) == m = "reuse" /\ p \in ps.used
 
@@ -84,7 +92,7 @@ FlagAfter(model, ps, p, m, inc, stage) ==
   THEN (IF stage = "parse" THEN ps.tooMuch \/ inc ELSE FALSE)
   ELSE ps.tooMuch \/ inc
 
-AfterCompile(model, ps, p, m, inc, stage, eng) ==
+AfterCompile(model, ps, p, m, inc, stage, eng, mods) ==
   LET reached == stage # "parse"      \* a rules object exists
       keep == m = "reuse" /\ ~Kept(ps, p) /\ reached
   IN [ps EXCEPT
@@ -94,7 +102,10 @@ AfterCompile(model, ps, p, m, inc, stage, eng) ==
         !.fun = IF keep /\ FunNow(ps, inc) THEN ps.fun \cup {p} ELSE ps.fun,
         !.used = IF m = "reuse" /\ reached THEN ps.used \cup {p} ELSE ps.used,
         !.engines = IF reached THEN ps.engines \cup {eng} ELSE ps.engines,
-        !.failed = ps.failed \/ stage # "ok"]
+        !.failed = ps.failed \/ stage # "ok",
+        !.imported = IF ParsesNow(ps, p, m)
+                     THEN ps.imported \cup {<<x, p>> : x \in mods}
+                     ELSE ps.imported]
 
 HRange(s) == {s[k] : k \in 1..Len(s)}
 =============================================================================
